@@ -43,12 +43,16 @@ def base_files(ctx):
             {"tags": [(0xC3, b"\x02")], "content": P(ctx, "c05-d", 7, 0), "declared": 7, "enc": False},
             {"tags": TYPE_CFG, "content": P(ctx, "c05-e", 24, 1), "declared": 24, "enc": True},
             {"tags": [(0x00, b"")], "content": b"\x00", "declared": 1, "enc": False}]),
+        # valid files with unusual but legal tag values: the encryption tag id with values that are not the one-byte 02
+        (ctx.sym("c05-k4"), [
+            {"tags": [(0xC2, b"\x00\x02")], "content": P(ctx, "c05-h", 32, 0), "declared": 32, "enc": False},
+            {"tags": [(0xC2, b""), (0xC3, b"\x02\x00")], "content": P(ctx, "c05-i", 21, 0), "declared": 21, "enc": False}]),
         (ctx.sym("c05-k3"), []),
         (bytes(range(16)), [
             {"tags": [(0x10, bytes(range(208)))], "content": P(ctx, "c05-f", 41, 17), "declared": 1, "enc": False},
             {"tags": [(0xC1, b"\x00")], "content": P(ctx, "c05-g", 15, 0), "declared": 15, "enc": False}]),
     ]
-    return files[:3] if ctx.quick else files
+    return files[:4] if ctx.quick else files
 
 
 # ---- edit operators: fn(ast, i, key, info) ; i = entry index or -1 --------------------
